@@ -6,6 +6,8 @@ A_NUM = "01.-+eE_ /nNaAiIfFjJ"
 A_ISO = "0129-:T.+Z W"
 A_RE = "ab(*)[?+{1}|"
 A_B64 = "QU=-\x81"
+A_HEX = "0f-{} zg"
+A_IP = "1.:/3 f0z"
 SCALARS = {
     "int": ("int", "sym", A_NUM),
     "float": ("float", "sym", A_NUM),
@@ -23,7 +25,11 @@ SCALARS = {
     "datetime": ("datetime", "sel", A_ISO),
     "Pattern": ("re.Pattern", "sel", A_RE),
     "LiteralString": ("LiteralString", "sym", A_NUM),
+    "UUID": ("UUID", "sel", A_HEX), "IPv4Address": ("IPv4Address", "sel", A_IP), "IPv6Address": ("IPv6Address", "sel", A_IP),
+    "IPv4Network": ("IPv4Network", "sel", A_IP), "IPv4Interface": ("IPv4Interface", "sel", A_IP), "PurePosixPath": ("PurePosixPath", "sel", A_RE),
+    "Path": ("Path", "sel", A_RE), "datetime_ts": ("datetime", "sel", A_NUM), "date_ts": ("date", "sel", A_NUM), "datetime_fmt": ("datetime", "sel", A_ISO),
 }
+EXTRA_ONLY_C04 = ("UUID", "IPv4Address", "IPv6Address", "IPv4Network", "IPv4Interface", "PurePosixPath", "Path", "datetime_ts", "date_ts", "datetime_fmt")
 # loaders that also get a selector-built run although their main run is fully symbolic (C constructors on the lax path)
 ALSO_SEL = {"int": A_NUM, "float": A_NUM, "str": A_NUM, "bytes": A_B64, "bytearray": A_B64, "LiteralString": A_NUM}
 
@@ -33,12 +39,24 @@ from decimal import Decimal
 from fractions import Fraction
 from datetime import timedelta, date, time, datetime
 Atom = Union[None, bool, int, float, str, bytes]
+from uuid import UUID
+from ipaddress import IPv4Address, IPv6Address, IPv4Network, IPv4Interface
+from pathlib import PurePosixPath, Path
+from datetime import timezone
+from adaptix import datetime_by_timestamp, date_by_timestamp, datetime_by_format
 RS = six_retorts()
+RS_TS = six_retorts([datetime_by_timestamp(tz=timezone.utc), date_by_timestamp()])
+RS_FMT = six_retorts([datetime_by_format(fmt="%Y-%m")])
 TYPES = {"int": int, "float": float, "str": str, "bool": bool, "Decimal": Decimal, "Fraction": Fraction,
          "complex": complex, "bytes": bytes, "bytearray": bytearray, "NoneType": None, "timedelta": timedelta,
          "date": date, "time": time, "datetime": datetime, "Pattern": re.Pattern, "LiteralString": LiteralString}
+TYPES.update({"UUID": UUID, "IPv4Address": IPv4Address, "IPv6Address": IPv6Address, "IPv4Network": IPv4Network, "IPv4Interface": IPv4Interface,
+              "PurePosixPath": PurePosixPath, "Path": Path})
 LD = {name: {k: r.get_loader(tp) for k, r in RS.items()} for name, tp in TYPES.items()}
 DP = {name: {k: r.get_dumper(tp) for k, r in RS.items()} for name, tp in TYPES.items()}
+LD["datetime_ts"] = {k: r.get_loader(datetime) for k, r in RS_TS.items()}
+LD["date_ts"] = {k: r.get_loader(date) for k, r in RS_TS.items()}
+LD["datetime_fmt"] = {k: r.get_loader(datetime) for k, r in RS_FMT.items()}
 
 def shape(kind: int, d):
     """root-kind selector: the atom itself, or inside / next to each wrong container kind"""
@@ -171,6 +189,8 @@ def l1_loader_module(prop: str, tier: str) -> Module:
     tmo = 60 if quick else 300
     m = Module(f"{prop.lower()}_l1").pre(SETUP)
     for name, (texpr, mode, alpha) in SCALARS.items():
+        if name in EXTRA_ONLY_C04 and prop != "C04":
+            continue                      # constructor-backed types: only the LoadError-only property has a documented oracle
         for strict in ((True, False) if prop != "C07" else (None,)):
             tagname = {True: "strict", False: "lax", None: "pair"}[strict]
             runs = []
